@@ -98,3 +98,4 @@ package helpers
 //@   ensures [own-state] result1 == nil && (str_lower(name) == "contextual" || str_lower(name) == "context" || str_lower(name) == "date") ==> fresh(wraps(result0))
 //@ func BuildSorter
 //@   ensures [own-wrapper] result1 == nil ==> fresh(result0)
+//@   assert at "sorter = sorting.Reverse(sorter)" : reverse
